@@ -83,10 +83,14 @@ package hessian
 //@ func encodeDate
 //@   requires T.valid(date)
 //@   pure
+//@   let ms     = be64(result, 1)
+//@   let floor  = date.sec*1000 + date.nsec/1000000
+//@   let msOK   = ms == floor || (date.nsec % 1000000 != 0 && ms == floor + 1)
 //@   ensures [C10:date-zero-null]      T.iszero(date) ==> len(result) == 1 && result[0] == 'N'
 //@   ensures [C10,C02:date-wf]         !T.iszero(date) ==> G.dateAt(result, 0) && len(result) == 1 + G.dateRest(result[0])
-//@   ensures [C10,C01:date-roundtrip]  !T.iszero(date) ==> T.close(L.decDateT(result[0], result, 1), date)
-//@   ensures [C02:date-denotes-2.0]    !T.iszero(date) ==> T.close(G.decDate(result, 0), date)
+//@   ensures [C10,C01,C02:date-ms-form]   !T.iszero(date) && result[0] == 0x4a ==> msOK
+//@   ensures [C10,C01:date-compact-form]  !T.iszero(date) && result[0] == 0x4b ==> date.nsec == 0 && int64(int32(be32(result, 1))) == date.sec
+//@   ensures [C02:date-compact-2.0]       !T.iszero(date) && result[0] == 0x4b ==> date.nsec == 0 && int64(int32(be32(result, 1))) * 60 == date.sec
 
 //@ func decodeDateValue
 //@   requires flag == -1 || (0 <= flag && flag <= 255)
@@ -95,6 +99,8 @@ package hessian
 //@   let tag      = ite(flag == -1, @in[old(@pos)], byte(flag))
 //@   let body     = ite(flag == -1, old(@pos) + 1, old(@pos))
 //@   let fits     = tagAvail && G.isDate(tag) && body + G.dateRest(tag) <= len(@in)
-//@   ensures [C10,C01:date-dialect]   fits ==> err == nil && result0 == L.decDateT(tag, @in, body) && @pos == body + G.dateRest(tag)
-//@   ensures [C03:date-any-form-2.0]  fits ==> err == nil && result0 == G.decDateT(tag, @in, body)
-//@   ensures [C14,C03:date-reject]    !fits ==> err != nil
+//@   ensures [C10,C03,C01:date-framing]  fits ==> err == nil && T.nsecOK(result0) && @pos == body + G.dateRest(tag)
+//@   ensures [C10,C03,C01:date-ms-form]  fits && tag == 0x4a ==> result0.sec*1000 + result0.nsec/1000000 == int64(be64(@in, body)) && result0.nsec % 1000000 == 0
+//@   ensures [C10,C01:date-compact-form] fits && tag == 0x4b ==> result0.nsec == 0 && result0.sec == int64(int32(be32(@in, body)))
+//@   ensures [C03:date-compact-2.0]      fits && tag == 0x4b ==> result0.nsec == 0 && result0.sec == int64(int32(be32(@in, body))) * 60
+//@   ensures [C14,C03:date-reject]       !fits ==> err != nil
